@@ -61,7 +61,7 @@ def gen_variant(rng, shape):
             spell[(i, r["name"])] = rng.choice(SPELLINGS)
     use = list(range(n)) + ["fn"]
     rng.shuffle(use)
-    return {"order": order, "style": style, "spell": spell, "use": use, "amt_late": rng.random() < 0.7}
+    return {"order": order, "style": style, "spell": spell, "use": use, "amt_late": rng.random() < 0.7, "fn_first": rng.random() < 0.4}
 
 
 def ann_src(wrapper, target_expr_direct, target_name, spelling):
@@ -132,10 +132,15 @@ def source(shape, variant, uid):
     f = shape["fn"]
     q = "" if variant["style"] == "local" else "'"
     star = f", *rest: {q}{names[f['star']]}{q}" if f["star"] is not None else ""
-    lines.append(f"{ind}@parse")
-    lines.append(f"{ind}def fn(x: {q}{names[f['arg']]}{q}{star}) -> {q}{names[f['ret']]}{q}:")
-    lines.append(f"{ind}    return dict(v='7')" if f["ret"] != f["arg"] else f"{ind}    return x")
-    lines.append("")
+    fn_lines = [f"{ind}@parse", f"{ind}def fn(x: {q}{names[f['arg']]}{q}{star}) -> {q}{names[f['ret']]}{q}:",
+                f"{ind}    return dict(v='7')" if f["ret"] != f["arg"] else f"{ind}    return x", ""]
+    if variant.get("fn_first") and variant["style"] != "local":
+        # the function is declared BEFORE the classes it names: parameters, *args and return type are late references
+        at = next(k for k, l in enumerate(lines) if l.startswith("class ") or l.startswith(f"class {amt}"))
+        lines[at:at] = fn_lines
+        late = True
+    else:
+        lines += fn_lines
     if variant["style"] == "local":
         lines.append("    return {" + ", ".join(f"{nm!r}: {nm}" for nm in names) + ", 'fn': fn}")
         lines.append("")
